@@ -8,7 +8,7 @@ PROPERTY = 'C16'
 TECHNIQUE = ('exhaustive enumeration of the product of element value domains (all present/absent combinations) and of a '
              'scope-string grammar, on the real SdcLocation / LocationContextState / mk_scopes code')
 
-V_FULL = [None, 'a', 'A b', 'x/y', '%2F', '&=?#+', 'ä€', '..']
+V_FULL = [None, 'a', 'A b', 'x/y', '%2F', '&=?#+', 'ä€', '..', 'a\u0308\u2126']   # the last: decomposed umlaut + OHM SIGN (not NFC)
 V_QUICK = [None, 'a', 'x/y', '&=?#+ä']
 ELEMENTS = ('fac', 'bldng', 'flr', 'poc', 'rm', 'bed')
 # texts that look like something else once they are encoded or decoded one time too many / too few
@@ -206,6 +206,40 @@ def _reupdate_chunk(acc, combos):
                           case={'kind': 'reupdate', 'first': list(first), 'values': list(values)})
 
 
+def _mutation_chunk(acc, combos):
+    """An SdcLocation object is used for filtering, then one of its (public, mutable) elements is changed and it is used
+    again: every answer must be the one a fresh object with the same elements gives."""
+    from lxml import etree
+    from sdc11073.location import SdcLocation
+    from sdc11073.wsdiscovery.service import Service
+    from sdc11073.xml_types.wsd_types import ScopesType
+    warnings.simplefilter('ignore')
+    published = [_loc(v) for v in (('a', 'b', None, 'p', None, 'bed1'), ('a', 'b', None, 'p', None, 'bed2'), ('a', None, None, None, None, None),
+                                   ('z', 'b', None, 'p', None, 'bed1'))]
+    services = [Service([etree.QName('urn:x', 'T')], ScopesType(l.scope_string), ['http://1.2.3.4/x'], f'urn:uuid:{i}', '1')
+                for i, l in enumerate(published)]
+    for values, idx, new in combos:
+        acc.add('states')
+        acc.evals()
+        acc.trace()
+        loc = _loc(values)
+        first = sorted(s.epr for s in loc.filter_services_inside(services))
+        changed = list(values)
+        changed[idx] = new
+        setattr(loc, ELEMENTS[idx], new)
+        acc.transition(2)
+        second = sorted(s.epr for s in loc.filter_services_inside(services))
+        fresh = sorted(s.epr for s in _loc(tuple(changed)).filter_services_inside(services))
+        back = sorted(s.epr for s in _loc(values).filter_services_inside(services))
+        if first != back:
+            acc.violation(f'mutation/filter-not-deterministic/{_shape(values)}', {'first': first, 'again': back},
+                          case={'kind': 'mutation', 'combo': [list(values), idx, new]})
+        if second != fresh:
+            acc.violation(f'mutation/stale-answer-after-element-change/{ELEMENTS[idx]}/{_shape(values)}>{new}',
+                          {'values': values, 'changed': changed, 'answer': second, 'fresh_object_answers': fresh},
+                          case={'kind': 'mutation', 'combo': [list(values), idx, new]})
+
+
 SCHEMES = ['sdc.ctxt.loc', 'SDC.CTXT.LOC', 'sdc.ctxt.opr', 'http', 'urn', '']
 SEGMENTS = ['root', 'sdc.ctxt.loc.detail', 'a%2Fb', '', 'x y', '..']
 QUERIES = ['', '?', '?fac=a', '?fac=a&bed=b', '?fac', '?=a', '?fac=a&fac=b', '?fac=%ZZ', '?&&', '?fac=a#frag', '?bogus=1;x=2']
@@ -289,6 +323,12 @@ def run(ctx):
     n = max(1, len(tp) // 32)
     ctx.pmap(_published_chunk, [tp[i:i + n] for i in range(0, len(tp), n)], chunksize=1)
     pub_domain = [None, 'a', 'x/y &=?#+ä'] if ctx.quick else [None, 'a', 'A b', 'x/y', '&=?#+ä€%2F']
+    # unicode that changes under normalisation (NFC / NFKC / case folding): whatever is published must still be found
+    # inside the location it was made from, compared code point by code point
+    uni = ['a\u0308', '\u2126', '\u212b', '\u1100\u1161', 'e\u0301\u0323', '\ufb01', '\u00b5', 'I\u0307', '\u1e9e']
+    uni_combos = [tuple(u if i == k else None for i in range(6)) for u in uni for k in range(6)]
+    uni_combos += [tuple([u] * 6) for u in uni]
+    ctx.pmap(_published_chunk, [uni_combos[i::8] for i in range(8)], chunksize=1)
     combos = list(itertools.product(pub_domain, repeat=6))
     n = max(1, len(combos) // 32)
     ctx.pmap(_published_chunk, [combos[i:i + n] for i in range(0, len(combos), n)], chunksize=1)
@@ -299,6 +339,12 @@ def run(ctx):
     n = max(1, len(re_combos) // 64)
     ctx.pmap(_reupdate_chunk, [re_combos[i:i + n] for i in range(0, len(re_combos), n)], chunksize=1)
     ctx.note('reupdate_cases', len(re_combos))
+    mdom = [None, 'a', 'b', 'p', 'bed1', 'z']
+    starts = [v for v in itertools.product([None, 'a'], [None, 'b'], [None], [None, 'p'], [None], [None, 'bed1', 'bed2'])]
+    mut = [(v, i, new) for v in starts for i in range(6) for new in mdom if new != v[i]]
+    n = max(1, len(mut) // 32)
+    ctx.pmap(_mutation_chunk, [mut[i:i + n] for i in range(0, len(mut), n)], chunksize=1)
+    ctx.note('mutation_cases', len(mut))
     scopes = foreign_scopes()
     n = max(1, len(scopes) // 32)
     ctx.pmap(_foreign_chunk, [scopes[i:i + n] for i in range(0, len(scopes), n)], chunksize=1)
@@ -325,7 +371,10 @@ def replay(ctx, case):
         if not ok:
             ctx.violation(f'roundtrip/{_shape(case["values"])}', {'parsed': str(back)})
         return {'ok': ok}
-    if case['kind'] == 'reupdate':
+    if case['kind'] == 'mutation':
+        c = case['combo']
+        _mutation_chunk(ctx, [(tuple(c[0]), c[1], c[2])])
+    elif case['kind'] == 'reupdate':
         _reupdate_chunk(ctx, [(tuple(case['first']), tuple(case['values']))])
     elif case['kind'] == 'published':
         _published_chunk(ctx, [tuple(case['values'])])
